@@ -30,6 +30,10 @@ enum CqeSpec {
 enum Action {
     Post(Vec<CqeSpec>),
     Poll { during: Vec<(usize, Vec<CqeSpec>)>, at_end: Vec<CqeSpec> },
+    /// A `Ring::poll` whose `io_uring_enter` (made only when the poll finds the queue empty) posts
+    /// these completions and then fails with this errno; when the poll does not enter the kernel
+    /// the completions are posted right after it.
+    PollErr { posted: Vec<CqeSpec>, errno: i32 },
 }
 
 fn canon_ud(spec: &CqeSpec) -> u64 {
@@ -75,6 +79,7 @@ fn coq_action(a: &Action) -> String {
             let _ = write!(s, "] {}", coq_list(at_end));
             s
         }
+        Action::PollErr { posted, errno } => format!("PollErr {} {errno}", coq_list(posted)),
     }
 }
 
@@ -116,14 +121,18 @@ struct World {
     posted: Vec<CqeSpec>,
 }
 
+fn cqe_of(w: &World, spec: &CqeSpec) -> abi::Cqe {
+    match spec {
+        CqeSpec::Op { op, res } => abi::Cqe { user_data: w.op_uds[*op], res: *res, flags: 0 },
+        CqeSpec::Internal { ud, res, fl } => abi::Cqe { user_data: *ud, res: *res, flags: *fl },
+        CqeSpec::Skip { res, fl, .. } => abi::Cqe { user_data: trap_addr(), res: *res, flags: *fl },
+    }
+}
+
 fn post_specs(world: &Arc<Mutex<World>>, specs: &[CqeSpec]) {
     let mut w = world.lock().unwrap();
     for spec in specs {
-        let cqe = match spec {
-            CqeSpec::Op { op, res } => abi::Cqe { user_data: w.op_uds[*op], res: *res, flags: 0 },
-            CqeSpec::Internal { ud, res, fl } => abi::Cqe { user_data: *ud, res: *res, flags: *fl },
-            CqeSpec::Skip { res, fl, .. } => abi::Cqe { user_data: trap_addr(), res: *res, flags: *fl },
-        };
+        let cqe = cqe_of(&w, spec);
         simk::with(|s| {
             if let CqeSpec::Op { .. } = spec {
                 // Keep the in-flight table in step: this request is finished.
@@ -188,6 +197,7 @@ fn one_case(r: &mut Rng, silent_panic: &Arc<Mutex<Option<String>>>) -> Case {
                        futs: &mut Vec<Option<Pin<Box<dyn Future<Output = std::io::Result<usize>>>>>>,
                        during: &[(usize, Vec<CqeSpec>)],
                        at_end: &[CqeSpec],
+                       fail: Option<(i32, &[CqeSpec])>,
                        obs: &mut Vec<i128>,
                        oracle: &mut Option<String>,
                        dispatched: &mut Vec<(usize, i128)>| {
@@ -207,9 +217,45 @@ fn one_case(r: &mut Rng, silent_panic: &Arc<Mutex<Option<String>>>) -> Case {
                 post_specs(&w2, &end);
             }
         })));
+        if let Some((errno, cs)) = fail {
+            let cqes: Vec<abi::Cqe> = {
+                let w = world.lock().unwrap();
+                cs.iter().map(|c| cqe_of(&w, c)).collect()
+            };
+            simk::with(|s| s.fail_next_enter = Some((errno, cqes)));
+        }
         let res = std::panic::catch_unwind(std::panic::AssertUnwindSafe(|| ring.poll(Some(Duration::ZERO))));
         sched::set_injector(None);
+        // Was the scripted failure used (the poll entered the kernel)?
+        let mut failed_enter = false;
+        if let Some((_, cs)) = fail {
+            let unused = simk::with(|s| s.fail_next_enter.take());
+            match unused {
+                None => {
+                    failed_enter = true;
+                    // The kernel posted them inside the failing call: keep the books.
+                    let mut w = world.lock().unwrap();
+                    for spec in cs {
+                        if let CqeSpec::Op { op, .. } = spec {
+                            let ud = w.op_uds[*op];
+                            simk::with(|s| {
+                                if let Some(req) = s.find_req_by_user_data(ud) {
+                                    s.inflight.retain(|r| r.req != req);
+                                }
+                            });
+                        }
+                        w.posted.push(spec.clone());
+                    }
+                }
+                Some(_) => {}
+            }
+        }
         match res {
+            Ok(Err(e)) if failed_enter && e.raw_os_error() == fail.map(|f| f.0) => {
+                // The error is reported; nothing may have been handed out (checked below).
+                obs.push(-3);
+                obs.push(fail.map(|f| f.0).unwrap_or(0) as i128);
+            }
             Err(_) => {
                 let msg = silent_panic.lock().unwrap().take().unwrap_or_default();
                 oracle.get_or_insert(format!("Ring::poll panicked: {msg}"));
@@ -253,6 +299,10 @@ fn one_case(r: &mut Rng, silent_panic: &Arc<Mutex<Option<String>>>) -> Case {
         });
         obs.push(-1);
         obs.push(head as i128);
+        if let (Some((_, cs)), false) = (fail, failed_enter) {
+            // The poll did not enter the kernel: the completions arrive right after it.
+            post_specs(&world, cs);
+        }
         true
     };
 
@@ -270,7 +320,7 @@ fn one_case(r: &mut Rng, silent_panic: &Arc<Mutex<Option<String>>>) -> Case {
             futs.push(Some(f));
         }
         script.push(Action::Poll { during: vec![], at_end: vec![] });
-        ok = do_poll(&mut ring, &mut futs, &[], &[], &mut obs, &mut oracle, &mut dispatched);
+        ok = do_poll(&mut ring, &mut futs, &[], &[], None, &mut obs, &mut oracle, &mut dispatched);
         // Learn the user_data of the operations just consumed by the kernel.
         let log = simk::with(|s| s.take_log());
         let mut w = world.lock().unwrap();
@@ -303,11 +353,19 @@ fn one_case(r: &mut Rng, silent_panic: &Arc<Mutex<Option<String>>>) -> Case {
         v
     };
     let mut mid_poll_posts = 0;
+    let mut failing_polls = 0;
     for _ in 0..n_actions {
         if !ok {
             break;
         }
-        if r.chance(1, 2) {
+        if r.chance(1, 6) {
+            // A poll whose io_uring_enter fails after the kernel posted something.
+            let cs = take_specs(r, &mut remaining, 3);
+            let errno = *r.pick(&[libc::EAGAIN, libc::EBUSY, libc::ENOMEM]);
+            failing_polls += 1;
+            script.push(Action::PollErr { posted: cs.clone(), errno });
+            ok = do_poll(&mut ring, &mut futs, &[], &[], Some((errno, &cs)), &mut obs, &mut oracle, &mut dispatched);
+        } else if r.chance(1, 2) {
             let cs = take_specs(r, &mut remaining, 5);
             post_specs(&world, &cs);
             script.push(Action::Post(cs));
@@ -325,7 +383,7 @@ fn one_case(r: &mut Rng, silent_panic: &Arc<Mutex<Option<String>>>) -> Case {
             let at_end = if r.chance(1, 3) { take_specs(r, &mut remaining, 3) } else { vec![] };
             let before = world.lock().unwrap().posted.len();
             script.push(Action::Poll { during: during.clone(), at_end: at_end.clone() });
-            ok = do_poll(&mut ring, &mut futs, &during, &at_end, &mut obs, &mut oracle, &mut dispatched);
+            ok = do_poll(&mut ring, &mut futs, &during, &at_end, None, &mut obs, &mut oracle, &mut dispatched);
             let after = world.lock().unwrap().posted.len();
             mid_poll_posts += after - before;
             // Operations named in a plan that never triggered are still pending.
@@ -356,7 +414,7 @@ fn one_case(r: &mut Rng, silent_panic: &Arc<Mutex<Option<String>>>) -> Case {
             }
             guard += 1;
             script.push(Action::Poll { during: vec![], at_end: vec![] });
-            ok = do_poll(&mut ring, &mut futs, &[], &[], &mut obs, &mut oracle, &mut dispatched);
+            ok = do_poll(&mut ring, &mut futs, &[], &[], None, &mut obs, &mut oracle, &mut dispatched);
         }
     }
 
@@ -392,6 +450,7 @@ fn one_case(r: &mut Rng, silent_panic: &Arc<Mutex<Option<String>>>) -> Case {
     tags.push(format!("cq_len:{cq_len}"));
     tags.push(format!("wraps_counter:{wrapped}"));
     tags.push(format!("mid_poll_posts:{}", mid_poll_posts.min(3)));
+    tags.push(format!("polls_with_failing_enter:{}", failing_polls.min(3)));
     tags.push(format!("internal:{}", w.posted.iter().filter(|c| !matches!(c, CqeSpec::Op { .. })).count().min(5)));
     tags.push(format!("overflowed:{}", log.iter().any(|e| matches!(e, Ev::Posted { overflow: true, .. }))));
     let n_posted = w.posted.len();
@@ -425,6 +484,9 @@ fn one_case(r: &mut Rng, silent_panic: &Arc<Mutex<Option<String>>>) -> Case {
                     let _ = write!(json, "{{\"before_op_entry\":{k},\"post\":{}}}", json_specs(cs));
                 }
                 let _ = write!(json, "],\"before_head_store\":{}}}}}", json_specs(at_end));
+            }
+            Action::PollErr { posted, errno } => {
+                let _ = write!(json, "{{\"poll_whose_enter_fails\":{{\"errno\":{errno},\"kernel_posts_first\":{}}}}}", json_specs(posted));
             }
         }
     }
